@@ -24,14 +24,14 @@ namespace C08
 variable {ν : Type}
 
 /-- the attribute's path is one of the declared `attributes(..)` names -/
-def selected (r : SOuter ν) (a : Attr) : Bool := r.willParseAny && r.attrNames.contains a.path.toks
+def selected (r : SOuter ν) (a : Attr) : Bool := r.willParseAny && r.attrNames.contains a.path.toStr
 
 /-- the attribute is handed to the `attrs` field -/
 def forwardedBy (r : SOuter ν) (a : Attr) : Bool :=
   !selected r a && r.willFwdAny &&
     (match r.forward with
      | some .all => true
-     | some (.only names) => names.contains a.path.toks
+     | some (.only names) => names.contains a.path.toStr
      | none => false)
 
 /-- what one selected attribute contributes to the shared parser state -/
@@ -87,7 +87,7 @@ theorem stepAttr_spec (r : SOuter ν) (st : XState ν) (a : Attr) :
       | .ok p => .ok ⟨p, st.fwd ++ (if forwardedBy r a then [a] else [])⟩
       | .error m => .error m) := by
   unfold stepAttr atomsOf forwardedBy selected
-  by_cases hs : (r.willParseAny && r.attrNames.contains a.path.toks) = true
+  by_cases hs : (r.willParseAny && r.attrNames.contains a.path.toStr) = true
   · simp only [hs, if_true]
     cases hi : attrItems a with
     | items xs =>
@@ -97,8 +97,8 @@ theorem stepAttr_spec (r : SOuter ν) (st : XState ν) (a : Attr) :
             simp only [runAtoms_items]
             cases coreLoop r.fields st.p (x :: rest) <;> simp [Except.map]
     | err e => simp [runAtoms, stepAtom]
-  · have hs' : (r.willParseAny && r.attrNames.contains a.path.toks) = false := by
-      cases h : (r.willParseAny && r.attrNames.contains a.path.toks) <;> simp_all
+  · have hs' : (r.willParseAny && r.attrNames.contains a.path.toStr) = false := by
+      cases h : (r.willParseAny && r.attrNames.contains a.path.toStr) <;> simp_all
     simp only [hs']
     cases hw : r.willFwdAny with
     | false => simp [runAtoms]
@@ -109,7 +109,7 @@ theorem stepAttr_spec (r : SOuter ν) (st : XState ν) (a : Attr) :
             cases f with
             | all => simp [runAtoms]
             | only names =>
-                by_cases hc : a.path.toks ∈ names <;> simp [hc, runAtoms]
+                by_cases hc : a.path.toStr ∈ names <;> simp [hc, runAtoms]
 
 /-- the whole attribute walk -/
 theorem attrLoop_spec (r : SOuter ν) (st : XState ν) (attrs : List Attr) :
@@ -191,7 +191,7 @@ theorem forward_all (r : SOuter ν) (hfw : r.forward = some .all) (hattrs : r.at
 
 /-- with a list, exactly the listed, non-selected names -/
 theorem forward_only (r : SOuter ν) (names : List String) (hfw : r.forward = some (.only names)) (a : Attr) :
-    forwardedBy r a = true → a.path.toks ∈ names ∧ selected r a = false := by
+    forwardedBy r a = true → a.path.toStr ∈ names ∧ selected r a = false := by
   simp only [forwardedBy, hfw]
   intro h
   simp at h
@@ -242,7 +242,7 @@ theorem foreign_inert (r : SOuter ν) (a : Attr) (hs : selected r a = false) (hf
 
 /-- only the path of a non-selected attribute is ever looked at: two attributes with the same path
     are selected / forwarded alike -/
-theorem selection_by_path_only (r : SOuter ν) (a b : Attr) (h : a.path.toks = b.path.toks) :
+theorem selection_by_path_only (r : SOuter ν) (a b : Attr) (h : a.path.toStr = b.path.toStr) :
     selected r a = selected r b ∧ forwardedBy r a = forwardedBy r b := by
   simp [selected, forwardedBy, h]
 
